@@ -312,7 +312,16 @@ pub fn run_case(group: &Group, input: &Db, plan: &ParPlan, case_seed: u64) -> Ca
                   summaries.push(summ);
                }
                let back = map_db_to_base(&db, &m.meta);
-               let mm = compare(&group.ref_prog, input, &expected.db, &back, true);
+               // ascent_run! variants receive their inputs through rules (captured locals), so caller duplicates
+               // do not exist there: the row-multiset check uses the input as a set
+               let dedup_input;
+               let cmp_input = if m.meta.kind.is_run() {
+                  dedup_input = dedup_db(input);
+                  &dedup_input
+               } else {
+                  input
+               };
+               let mm = compare(&group.ref_prog, cmp_input, &expected.db, &back, true);
                if !mm.is_empty() {
                   failures.push(Failure {
                      variant: m.meta.variant.clone(),
@@ -333,6 +342,15 @@ pub fn run_case(group: &Group, input: &Db, plan: &ParPlan, case_seed: u64) -> Ca
       }
    }
    CaseOutcome::Done { stats: expected.stats, failures, runs, summaries }
+}
+
+pub fn dedup_db(db: &Db) -> Db {
+   let mut out = Db::default();
+   for (k, rows) in &db.rels {
+      let mut seen = BTreeSet::new();
+      out.rels.insert(k.clone(), rows.iter().filter(|r| seen.insert((*r).clone())).cloned().collect());
+   }
+   out
 }
 
 pub fn show_db(db: &Db) -> String {
